@@ -30,16 +30,17 @@ type tierBounds struct {
 	BDepth3, BDepth4, BCap int
 	BPalette               []int
 	BBothOrders            bool
+	BNoReparent4           bool
 	GridChunks, CChunks    int
 }
 
 func boundsFor(tier string) tierBounds {
 	if tier == "quick" {
 		return tierBounds{ADepth: 5, AMaxPods: 2, ACap: 400000, AKinds: []int{0, 2, 4, 5},
-			BDepth3: 4, BDepth4: 3, BCap: 400000, BPalette: []int{0, 1, 2}, GridChunks: 14, CChunks: 14}
+			BDepth3: 4, BDepth4: 3, BCap: 400000, BPalette: []int{1, 2}, BNoReparent4: true, GridChunks: 14, CChunks: 14}
 	}
-	return tierBounds{ADepth: 6, AMaxPods: 3, ACap: 1500000, AKinds: []int{0, 1, 2, 3, 4, 5},
-		BDepth3: 5, BDepth4: 4, BCap: 1500000, BPalette: []int{0, 1, 2, 3}, BBothOrders: true, GridChunks: 28, CChunks: 28}
+	return tierBounds{ADepth: 6, AMaxPods: 3, ACap: 400000, AKinds: []int{0, 1, 2, 3, 4, 5},
+		BDepth3: 5, BDepth4: 3, BCap: 400000, BPalette: []int{1, 2, 3}, BBothOrders: true, GridChunks: 28, CChunks: 28}
 }
 
 func units(tier string) []unit {
@@ -79,12 +80,12 @@ func units(tier string) []unit {
 	names, inits := initialStatesB(tier)
 	for i := range inits {
 		init, name := inits[i], names[i]
-		depth := tb.BDepth3
+		depth, noRep := tb.BDepth3, false
 		if len(init.Queues) == 4 {
-			depth = tb.BDepth4
+			depth, noRep = tb.BDepth4, tb.BNoReparent4
 		}
 		us = append(us, unit{"B", name, func() *unitStats {
-			return exploreB(name, init, &boundsB{MaxPGs: 2, Palette: tb.BPalette, MaxLevels: 3, Depth: depth, BothOrders: tb.BBothOrders}, tb.BCap)
+			return exploreB(name, init, &boundsB{MaxPGs: 2, Palette: tb.BPalette, MaxLevels: 3, Depth: depth, BothOrders: tb.BBothOrders, NoReparent: noRep}, tb.BCap)
 		}})
 	}
 	// Part C
@@ -116,11 +117,12 @@ func envInt(name string, def int) int {
 // ---------------------------------------------------------------- run
 
 var assumptions = []string{
-	"API store = controller-runtime fake client (v0.22) with the schemes, status sub-resources and field indexes the three apps register; it applies no server-side defaulting, no admission and no conflict detection beyond resourceVersion, so hot loops that only arise from apiserver defaulting of Deployment/Service/webhook fields are invisible to Part C.",
+	"API store = controller-runtime fake client (v0.22) with the status sub-resources and field indexes the three apps register and, of their schemes, the API groups the controllers actually touch (core, scheduling.k8s.io, resource.k8s.io, scheduling.run.ai; operator: core, apps, admissionregistration, apiextensions, kai.scheduler, nvidia.com, monitoring.coreos.com - the fake rebuilds a REST mapper from the whole scheme on every write); it applies no server-side defaulting, no admission and no conflict detection beyond resourceVersion, so hot loops that only arise from apiserver defaulting of Deployment/Service/webhook fields are invisible to Part C.",
 	"Environment events (pod add/delete/phase/bind, preemptibility flips, pod-group status writes, queue re-parenting) are written through the same store with plain Create/Update/Status().Update/Delete; the binder's received-resource-type annotation is written together with spec.nodeName (pkg/binder/binding/binder.go patches it before creating the Binding).",
 	"Reference definitions (weakest reading): requested = pods in phase Pending|Running; allocated = Running, or Pending with PodScheduled=True; GPU share of a fractional pod is counted in allocated only when the binder recorded it (received-resource-type=Fraction) and equals fraction x gpu-fraction-num-devices resp. gpu-memory / node nvidia.com/gpu.memory x num-devices; requested gpu-memory is reported as run.ai/gpu.memory (no node to convert against); allocatedNonPreemptible = allocated if the group is CURRENTLY non-preemptible (explicit spec.preemptibility, else priority class value >= 100, missing class = 50) and empty otherwise; a missing ResourceList entry equals a zero entry.",
 	"'Unchanged' on a repeated reconcile means semantically identical objects (resourceVersion ignored): both status controllers issue a status Patch on every reconcile whose merge-patch body is empty, which a real apiserver treats as a no-op; these are counted (noop_writes) and not reported. For the operator the code compares desired and current with reflect.DeepEqual and only then calls Update, so there the oracle is ZERO mutating calls on a repeated Deploy.",
 	"Queue trees are forests (cycles belong to C10), at most 3 levels and 4 queues; pod-group statuses in Part B come from a 4-value palette; quantities from the listed request kinds only.",
+	"Part C reads go through a wrapper that stamps the GroupVersionKind on typed objects returned by Get/List, as controller-runtime's informer-backed CacheReader does for the manager client the operator uses (the fake client blanks TypeMeta, which would collapse known_types.GetKey). Most Part C start states pre-seed the three Config-owned webhook TLS secrets to avoid a 2048-bit RSA key generation per Deploy; 30 cases start from a truly empty cluster. The Prometheus instance is kept for a 30-day retention period after being switched off (documented, clock-dependent): its left-over objects are not judged.",
 	"Part C drives deployable.DeployableOperands.Deploy with the real operand list of controller.ConfigReconcilerOperands, known_types.KAIConfigRegisteredCollectible and the two webhook field-inherit functions, exactly as ConfigReconciler.SetOperands + SetupWithManager wire it, after ConfigSpec.SetDefaultsWhereNeeded as Reconcile does. NOT covered: ConfigReconciler.Reconcile itself (its StatusReconciler and deployable are only wired inside SetupWithManager, which needs a manager with a live REST config and discovery for checkForClusterPolicy), status conditions, the SchedulingShard reconciler, Monitor(), and the ClusterPolicy watch. Generated certificate bytes are random per fresh deployment and are compared by key name only.",
 	"DRA is covered through the code path the pod-group controller actually uses (ExtractDRAGPUResources: Get of the ResourceClaim named in pod.spec.resourceClaims, ExactCount requests of a device class containing 'gpu'); template claims without status and AllocationMode=All are not enumerated.",
 }
@@ -129,7 +131,7 @@ func run(tier string) int {
 	us := units(tier)
 	idx, n, isWorker := engine.WorkerShard()
 	if isWorker {
-		deadline = engine.NewBudget(time.Duration(envInt("VERIF_C20_BUDGET_S", map[string]int{"quick": 100, "thorough": 1300}[tier])) * time.Second)
+		deadline = engine.NewBudget(time.Duration(envInt("VERIF_C20_BUDGET_S", map[string]int{"quick": 150, "thorough": 1300}[tier])) * time.Second)
 		// cost-balanced static assignment: unit i -> worker i%n (units are listed part by part)
 		for i, u := range us {
 			if i%n != idx {
@@ -156,8 +158,9 @@ func run(tier string) int {
 	extra := map[string]int{}
 	distinctStores := map[string]bool{}
 	var samples []any
-	samplesPerPart := map[string]int{}
+	allSamples := map[string][]any{}
 	harnessErr := ""
+	best := map[string]engine.Violation{}
 	workers := envInt("VERIF_WORKERS", min(max(runtime.NumCPU()-2, 1), 14))
 	err := engine.RunWorkers(workers, nil, 6*1024*1024, func(w int, line []byte) {
 		var st unitStats
@@ -202,15 +205,23 @@ func run(tier string) int {
 			extra[st.Part+"."+k] += v
 		}
 		for _, s := range st.Samples {
-			if samplesPerPart[st.Part] < 2 {
-				samplesPerPart[st.Part]++
-				samples = append(samples, s)
-			}
+			allSamples[st.Part] = append(allSamples[st.Part], s)
 		}
 		for _, v := range st.Violations {
-			rep.Add(v)
+			// deterministic representative per key: shortest history, then smallest message
+			if cur, ok := best[v.Key]; !ok || len(v.Message) < len(cur.Message) || (len(v.Message) == len(cur.Message) && v.Message < cur.Message) {
+				best[v.Key] = v
+			}
 		}
 	})
+	keys := make([]string, 0, len(best))
+	for k := range best {
+		keys = append(keys, k)
+	}
+	sort.Strings(keys)
+	for _, k := range keys {
+		rep.Add(best[k])
+	}
 	if err != nil {
 		fmt.Fprintf(os.Stderr, "harness error: %v\n", err)
 		return 2
@@ -230,7 +241,11 @@ func run(tier string) int {
 			"caps_hit": a.capHits, "fixpoint_bound_hits": a.boundHits}
 	}
 	sort.Strings(partNames)
-	sort.Slice(samples, func(i, j int) bool { return mustJSON(samples[i]) < mustJSON(samples[j]) })
+	for _, p := range partNames { // deterministic choice: the two smallest samples of each part
+		ss := allSamples[p]
+		sort.Slice(ss, func(i, j int) bool { return mustJSON(ss[i]) < mustJSON(ss[j]) })
+		samples = append(samples, ss[:min(2, len(ss))]...)
+	}
 	cov := map[string]any{
 		"states":                        total.states,
 		"transitions":                   total.transitions,
@@ -250,14 +265,16 @@ func run(tier string) int {
 		"fixpoint_bound_hits":                 total.boundHits,
 		"bounds": map[string]any{"partA_history_depth": tb.ADepth, "partA_max_pods_in_histories": tb.AMaxPods, "partA_grid_max_pods": 3,
 			"partA_add_kinds": kindNames(tb.AKinds), "partB_depth_le3_queues": tb.BDepth3, "partB_depth_4_queues": tb.BDepth4,
-			"partB_max_levels": 3, "partB_max_pod_groups": 2, "partC_switches": switchNames},
+			"partB_max_levels": 3, "partB_max_pod_groups": 2, "partB_status_palette": tb.BPalette, "partB_reparent_events_for_4_queues": !tb.BNoReparent4,
+			"partB_both_fixpoint_orders_everywhere": tb.BBothOrders, "partC_switches": switchNames},
 		"counters":    extra,
-		"explanation": "every transition is executed on a controller-runtime fake store: reconcile/deploy transitions run the real PodGroupReconciler.Reconcile / QueueReconciler.Reconcile / DeployableOperands.Deploy, environment transitions write through the same store; every distinct state is additionally driven to a fixpoint by real reconciles and judged by reference sums",
+		"explanation": "every transition is executed on a controller-runtime fake store: reconcile/deploy transitions run the real PodGroupReconciler.Reconcile / QueueReconciler.Reconcile / DeployableOperands.Deploy, environment transitions write through the same store; every distinct state is additionally driven to a fixpoint by real reconciles and judged by reference sums. A reconcile from a store state byte-identical to one already executed in the same worker is served from a memo (real_controller_executions counts the executions actually performed; 1 in 97 is re-executed on a fresh store and compared = determinism_replays)",
 	}
 	known := rep.KnownHits()
 	if len(known) > 0 {
 		cov["known_finding_hits"] = known
 	}
+	cov["violation_keys"] = keys
 	code := rep.Finish()
 	ev := &engine.Evidence{PropertyID: "C20", Tier: tier, Seed: engine.SeedFromEnv(), Level: "model_checking", Coverage: cov,
 		Assumptions: assumptions, WallS: time.Since(start).Seconds(), Violations: rep.NewCount()}
@@ -272,6 +289,9 @@ func run(tier string) int {
 	}
 	fmt.Printf("C20 %s: states=%d transitions=%d real_controller_executions=%d fixpoints=%d flip-then-reconcile=%d multi-level-nonzero=%d exhaustive=%v wall=%.1fs\n",
 		tier, total.states, total.transitions, total.real, total.fixpoints, total.flipRec, total.multiNZ, exhaustive, time.Since(start).Seconds())
+	for _, k := range keys {
+		fmt.Printf("C20 finding key: %s\n", k)
+	}
 	// vacuity guards
 	if total.flipRec == 0 || total.multiNZ == 0 || total.nontrivial == 0 || parts["A"] == nil || parts["B"] == nil || parts["C"] == nil ||
 		parts["B"].multiNZ == 0 || parts["C"].nontrivial == 0 || parts["A-grid"] == nil || parts["A-grid"].nontrivial == 0 {
